@@ -39,6 +39,9 @@ def main():
             "repo_head": sh("git -C /repo rev-parse --short HEAD").stdout.strip(), "confirmed": {}, "checks": {}}
     try:
         env = dict(os.environ, PYTHONPATH=wt)
+        # demos may locate the package relative to their own path (<worktree>/out/demo.py): run a copy placed there
+        sh(f"mkdir -p {wt}/out && cp {demo} {wt}/out/")
+        demo_src, demo = demo, f"{wt}/out/{os.path.basename(demo)}"
         r = sh(f"cd {wt} && timeout 600 /venv/bin/python {demo}", env=env)
         meta["confirmed"]["demo_on_clean_rc"] = r.returncode
         r = sh(f"git -C {wt} apply {diff}")
@@ -86,7 +89,7 @@ def main():
     if ok:
         os.makedirs(dst, exist_ok=True)
         open(os.path.join(dst, "patch.diff"), "w").write(diff_text)
-        shutil.copy(demo, os.path.join(dst, "demo.py"))
+        shutil.copy(demo_src, os.path.join(dst, "demo.py"))
         if os.path.exists(f"{src}/notes.md"):
             shutil.copy(f"{src}/notes.md", os.path.join(dst, "notes.md"))
         json.dump(meta, open(os.path.join(dst, "meta.json"), "w"), indent=1)
